@@ -221,7 +221,7 @@ class Ctx:
         for s, ex in sigs.items():
             hit = None
             for f in known:
-                if s == f["signature"] or s in f.get("signatures", []):
+                if s == f.get("signature") or s in f.get("signatures", []) or (f.get("pattern") and re.fullmatch(f["pattern"], s)):
                     hit = f
                     break
             if hit:
